@@ -103,3 +103,40 @@ extern "C" void h_define_fun_scopes() {
     if (popped_def) { VWITNESS("definition-popped"); }
     if (survived_rejected_dup && def[0]) { VWITNESS("outer-definition-survives-pop-after-rejected-duplicate"); }
 }
+
+// ---- C21: the REAL Interpret::pop(n): a (pop n) removes the define-funs of ALL n popped levels (one DefinedFunctions scope per solver level),
+// a pop beyond the stack is refused and changes nothing. MainSolver::pop / getAssertionLevel are a level counter.
+static int ms_level, ms_pops;
+extern "C" bool stub_ms_pop(MainSolver *) { if (ms_level == 0) return false; ms_level--; ms_pops++; return true; }
+extern "C" std::size_t stub_ms_level(MainSolver const *) { return (std::size_t)ms_level; }
+extern "C" int stub_incremental(SMTConfig const *) { return 1; }
+extern "C" void h_pop_levels() {
+    global_mode = nondet_bool();
+    Interpret & I = raw.obj;
+    static unsigned char fake_solver[8];
+    *reinterpret_cast<void **>(&I.main_solver) = (void *)fake_solver;
+    std::string const names[NN] = { std::string("a"), std::string("b") };
+    unsigned char fake_args[16] = {0};
+    vec<PTRef> const & args = *reinterpret_cast<vec<PTRef> const *>(fake_args);
+    int D = nondet_u8(); VASSUME(D >= 1 && D <= 3);
+    int lvl[NN]; for (int k = 0; k < NN; k++) { lvl[k] = nondet_u8(); VASSUME(lvl[k] >= 0 && lvl[k] <= D); }
+    // build the stack as the interpreter does: define at a level, then (push 1) = one solver level + one definition scope
+    for (int l = 0; l <= 3; l++) if (l <= D) {
+        for (int k = 0; k < NN; k++) if (lvl[k] == l) { bool r = I.storeDefinedFun(names[k], args, SRef_Undef, PTRef_Undef); VASSERT(r, "first definition of a name is accepted"); }
+        if (l < D) I.defined_functions.pushScope();
+    }
+    ms_level = D; ms_pops = 0;
+    int n = nondet_u8(); VASSUME(n >= 0 && n <= 4);
+    I.pop(n);
+    if (n <= D) {
+        VASSERT(ms_level == D - n && ms_pops == n, "(pop n) pops exactly n solver levels");
+        for (int k = 0; k < NN; k++)
+            VASSERT(I.defined_functions.has(names[k]) == (global_mode || lvl[k] <= D - n), "after (pop n) exactly the definitions of the n popped levels are gone (none, with global declarations)");
+        if (n >= 2 && lvl[0] == D - 1 && !global_mode) { VWITNESS("definition-of-a-middle-level-popped-by-pop-2"); }
+    } else {
+        VASSERT(ms_level == D && ms_pops == 0, "a pop beyond the stack is refused before anything is popped");
+        for (int k = 0; k < NN; k++) VASSERT(I.defined_functions.has(names[k]), "a refused pop leaves every definition in place");
+        VWITNESS("pop-beyond-the-stack-refused");
+    }
+    VWITNESS("pop-done");
+}
